@@ -32,6 +32,7 @@ LEVEL_TEXT = (
     "squares, a helper re-bound between two translations, and every function of the shipped library mxlpy.fns "
     "under every rotation of its own parameter names. "
     ' Also: signature variants of the same function (positional-only, keyword-only, defaults), helper calls with keyword arguments, tuple displays with an element that cannot be translated.'
+    ' Also: library functions whose usual symbolic stand-ins do not mean the same (np.greater at equality, cube roots of negative numbers, np.maximum / np.minimum, np.positive).'
 )
 LEVEL_NOTE = "trusted: CPython as the semantics of the function, sympy's evaluation of the returned expression (subs/evalf or lambdify cross-checked), the finite grid"
 RULE = (
